@@ -133,7 +133,6 @@ func VerifH_me() {
 	verifAssert(err == nil && mi != nil, "C13: valid initial endpoint list rejected")
 	m := mi.(*multiEndpoint)
 	verifAssert(m.Current() == init[0], "C13: current is not the first endpoint after construction")
-	outdatedSwitch := false
 	steps := verifCase("steps")
 	for step := 0; step < 4; step++ {
 		if step >= steps {
@@ -149,7 +148,7 @@ func VerifH_me() {
 		verifAssume(op >= 0 && op <= 2)
 		var repE int
 		var tm0 timerAlike
-		var repAvail, firedSwitch, firedOutdated bool
+		var repAvail bool
 		var list []string
 		var serr error
 		switch op {
@@ -180,15 +179,6 @@ func VerifH_me() {
 			if vNow < t.due {
 				vNow = t.due
 			}
-			firedSwitch = d > 0 && t.d == d && (r != d || verifBool("isSwitch"+sd))
-			if firedSwitch {
-				// the delayed switch is outdated when its target is no longer the best choice
-				fe, ok := m.endpoints[m.future]
-				ta := v0.topAvail()
-				firedOutdated = ok && fe.status == available && (ta == vE || m.future != vName(ta))
-			}
-			verifKnown("F-switch", firedOutdated)
-			outdatedSwitch = outdatedSwitch || firedOutdated
 			t.fired = true
 			t.f()
 		}
@@ -287,7 +277,6 @@ func VerifH_me() {
 	if vLiveTimers() == 0 {
 		v := vLook(m)
 		if t := v.topAvail(); t < vE {
-			verifKnown("F-switch", outdatedSwitch)
 			verifReach("quiescent with an available endpoint")
 			verifAssert(v.cur == t, "C14: at quiescence current is not the highest-priority available endpoint")
 		}
